@@ -38,6 +38,18 @@ Mirrors, definition by definition,
 * `container/grid/map.hpp`                : `map` — `object(source.size, p ↦ f (source.get_unsafe p))`
 * `container/grid/apply.hpp`              : `apply` — all other sizes equal to the first ? `object(size, p ↦ f (g1[p], gs[p]…))` : `object()`
 * `container/grid/fill.hpp`               : `fill` — for every element of `make_pos_ref_range(grid)`: `value = f pos`
+* `container/grid/next_position.hpp`      : `nextFold`/`nextStep` — the same fold read literally (indexed reads and writes)
+* `container/grid/offset.hpp`, `contents` : `offsetW`, `contentsW` — the `std::size_t` instantiation, arithmetic modulo `2^w`
+* `container/grid/pos_ref_range_impl.hpp` : `fillRange` — assignment through every `pos_reference::value()` of a sub-range
+* `container/grid/object_impl.hpp`        : `mkRows` (static_row constructor), `copy`, `moveOut`, `swap`; `regStep` — one
+                                            special-member call (copy/move constructor, copy/move assignment incl. self,
+                                            member/free swap) between numbered objects
+* `container/grid/comparison.hpp`         : `Grid.eq` (size, then three-iterator `std::equal`), `ne`, `lt` (size
+                                            lexicographically, then `std::lexicographical_compare` of the cells), `gt`, `le`, `ge`
+* `container/grid/output.hpp`,
+  `detail/print_recurse.hpp`              : `Grid.output`, `printRec` — nested parentheses, last coordinate outermost
+* `container/grid/interpolate.hpp`,
+  `detail/interpolate.hpp`, `math/vector/bit_strings.hpp` : `Grid.interpolate`, `interpRec`, `bitStrings`
 * `container/grid/clamped_min.hpp`        : `clampedMin` — `max(p_i, 0)`
 * `container/grid/clamped_sup.hpp`        : `clampedSup` — `min(p_i, size_i)`
 * `container/grid/clamped_sup_signed.hpp` : `clampedSupSigned` — `math::clamp(p_i, 0, size_i).get_unsafe()`,
@@ -87,6 +99,40 @@ def next (cur mn sp : Pos) : Pos :=
   match cur with
   | [] => []
   | x :: xs => carry ((x + 1) :: xs) mn sp
+
+/-- one step of the fold in `next_position`, read literally: `Index = i`, reads of `result[i]`, `sup[i]`,
+    writes of `result[i] = min[i]` and `++result[i+1]`.  The indices are compile-time constants below the
+    static size, so there is no out-of-range case in C++; on lists of other lengths the step does nothing. -/
+def nextStep (mn sp : Pos) (r : Pos) (i : Nat) : Pos :=
+  match r[i]?, sp[i]?, mn[i]?, r[i + 1]? with
+  | some ri, some si, some mi, some rj => if ri == si then (r.set i mi).set (i + 1) (rj + 1) else r
+  | _, _, _, _ => r
+
+/-- `grid::next_position` as the literal `fcppt::algorithm::fold` over `int_range_count<Size - 1>`
+    (`nextFold_eq_next`: the same function as `next`) -/
+def nextFold (cur mn sp : Pos) : Pos :=
+  match cur with
+  | [] => []
+  | x :: xs => (List.range (cur.length - 1)).foldl (nextStep mn sp) ((x + 1) :: xs)
+
+/-! ### the unsigned instantiation: arithmetic modulo `2^w` (`std::size_t`: `w = 64`) -/
+
+/-- reduction of a mathematical result into the value range of a `w`-bit unsigned type -/
+def wrap (w : Nat) (x : Int) : Int := x % (2 : Int) ^ w
+
+/-- `dim::contents` with every multiplication reduced modulo `2^w` -/
+def contentsW (w : Nat) (d : List Int) : Int := d.foldl (fun v x => wrap w (v * x)) (wrap w 1)
+
+/-- the fold step of `offset` with every multiplication / addition reduced modulo `2^w` -/
+def offsetStepW (w : Nat) (acc : Int × Int) (pd : Int × Int) : Int × Int :=
+  let stacked := wrap w (acc.2 * pd.2)
+  (wrap w (acc.1 + wrap w (pd.1 * stacked)), stacked)
+
+/-- `grid::offset` for a `w`-bit unsigned `SizeType` -/
+def offsetW (w : Nat) (p d : List Int) : Int :=
+  match p with
+  | [] => 0
+  | x :: xs => ((xs.zip d).foldl (offsetStepW w) (wrap w x, wrap w 1)).1
 
 /-- the `vector::init` of `end_position`: `Index < Size-1 ? min[Index] : sup[Index]` -/
 def endInit : Pos → Pos → Pos
@@ -197,6 +243,184 @@ def apply (f : α → List α → β) (g1 : Grid α) (gs : List (Grid α)) : Exc
 def fill (g : Grid α) (f : Pos → α) : Except Fault (Grid α) := do
   let ps ← posRange (zeros g.size) g.size
   ps.foldlM (fun g p => g.setUnsafe p (f p)) g
+
+/-- writing through the references of `make_pos_ref_range_start_end(grid, min, sup)`:
+    `for (auto const &e : range) e.value() = f(e.pos())` (`fill` is the case of the whole grid) -/
+def fillRange (g : Grid α) (mn sp : Pos) (f : Pos → α) : Except Fault (Grid α) := do
+  let ps ← posRange mn sp
+  ps.foldlM (fun g p => g.setUnsafe p (f p)) g
+
+/-- `grid::fill(grid, function)` with a function that reads the grid being filled (a reference to one of its own
+    cells): every call sees the cells already overwritten by the earlier iterations -/
+def fillDep (g : Grid α) (f : Grid α → Pos → Except Fault α) : Except Fault (Grid α) := do
+  let ps ← posRange (zeros g.size) g.size
+  ps.foldlM (fun g p => do
+    let x ← f g p
+    g.setUnsafe p x) g
+
+/-- `object(static_row(…), static_row(…)…)` (two-dimensional grids only): the cells are `array::join` of the rows in
+    the order given, `size_ = (row length of the first row, number of rows)`; equal row lengths are a `static_assert` -/
+def mkRows (r1 : List α) (rs : List (List α)) : Grid α :=
+  ⟨[(r1.length : Int), ((rs.length + 1 : Nat) : Int)], (r1 :: rs).flatten⟩
+
+/-! ### special members (`object_impl.hpp`): both members travel together -/
+
+/-- copy constructor / copy assignment (`= default`): `container_` and `size_` copied -/
+def copy (g : Grid α) : Grid α := ⟨g.size, g.cells⟩
+
+/-- move constructor / move assignment from another object: `container_` is moved (the source vector is left
+    empty), `size_` — a `dim` of integers — is copied.  Result: (new object, moved-from source) -/
+def moveOut (g : Grid α) : Grid α × Grid α := (⟨g.size, g.cells⟩, ⟨g.size, []⟩)
+
+/-- `a.swap(b)`: `container_.swap(other.container_); std::swap(size_, other.size_)`.  Result: (a, b) afterwards -/
+def swap (a b : Grid α) : Grid α × Grid α := (⟨b.size, b.cells⟩, ⟨a.size, a.cells⟩)
+
+end Grid
+
+/-- an object in a history of special-member calls; `moved`: it has been moved from and not assigned since
+    (its cells are unspecified by the standard; only `size()` is still what the code left there) -/
+structure Slot (α : Type) where
+  g : Grid α
+  moved : Bool
+  deriving Repr, BEq, DecidableEq
+
+/-- special-member operations between numbered objects -/
+inductive RegOp where
+  | defaultCtor (dst : Nat)     -- a new empty object `object()` replaces slot `dst`
+  | copyCtor (dst src : Nat)    -- a new object `object(slot[src])` replaces slot `dst`
+  | moveCtor (dst src : Nat)    -- a new object `object(std::move(slot[src]))` replaces slot `dst`
+  | copyAssign (dst src : Nat)  -- `slot[dst] = slot[src]`, also with `dst = src`
+  | moveAssign (dst src : Nat)  -- `slot[dst] = std::move(slot[src])`, also with `dst = src` (`if (this == &other) return *this`)
+  | swapMember (a b : Nat)      -- `slot[a].swap(slot[b])`, also with `a = b`
+  | swapFree (a b : Nat)        -- `swap(slot[a], slot[b])`
+  deriving Repr, DecidableEq
+
+/-- one special-member call between objects of static size `n`.  `none`: not a legal line (an index without object, a constructor from the object itself,
+    or a read of a moved-from object, whose value is unspecified) -/
+def regStep {α : Type} (n : Nat) (st : List (Slot α)) : RegOp → Option (List (Slot α))
+  | .defaultCtor d =>
+    match st[d]? with
+    | some _ => some (st.set d ⟨Grid.empty n, false⟩)
+    | none => none
+  | .copyCtor d s =>
+    if d == s then none else
+    match st[s]?, st[d]? with
+    | some x, some _ => if x.moved then none else some (st.set d ⟨x.g.copy, false⟩)
+    | _, _ => none
+  | .copyAssign d s =>
+    match st[s]?, st[d]? with
+    | some x, some _ => if x.moved then none else some (st.set d ⟨x.g.copy, false⟩)
+    | _, _ => none
+  | .moveCtor d s =>
+    if d == s then none else
+    match st[s]?, st[d]? with
+    | some x, some _ => if x.moved then none else some ((st.set d ⟨x.g.moveOut.1, false⟩).set s ⟨x.g.moveOut.2, true⟩)
+    | _, _ => none
+  | .moveAssign d s =>
+    match st[s]?, st[d]? with
+    | some x, some _ =>
+      if d == s then some st       -- the self-assignment guard
+      else if x.moved then none else some ((st.set d ⟨x.g.moveOut.1, false⟩).set s ⟨x.g.moveOut.2, true⟩)
+    | _, _ => none
+  | .swapMember a b | .swapFree a b =>
+    match st[a]?, st[b]? with
+    | some x, some y => some ((st.set a ⟨(x.g.swap y.g).1, y.moved⟩).set b ⟨(x.g.swap y.g).2, x.moved⟩)
+    | _, _ => none
+
+/-- a history of special-member calls -/
+def regRun {α : Type} (n : Nat) (st : List (Slot α)) : List RegOp → Option (List (Slot α))
+  | [] => some st
+  | op :: ops => (regStep n st op).bind fun st' => regRun n st' ops
+
+/-! ### comparison (`comparison.hpp`) -/
+
+/-- `std::equal(first1, last1, first2)` — the three-iterator form used by `fcppt::detail::equal`: it reads as many
+    elements of the second range as the first one has (past its end: `Fault.oob`) and stops at the first mismatch -/
+def equalPrefix {α : Type} [BEq α] : List α → List α → Except Fault Bool
+  | [], _ => .ok true
+  | _ :: _, [] => .error .oob
+  | x :: xs, y :: ys => if x == y then equalPrefix xs ys else .ok false
+
+/-- `std::lexicographical_compare(first1, last1, first2, last2)` with `operator<` -/
+def lexLess : List Int → List Int → Bool
+  | [], [] => false
+  | [], _ :: _ => true
+  | _ :: _, [] => false
+  | x :: xs, y :: ys => if x < y then true else if y < x then false else lexLess xs ys
+
+namespace Grid
+
+/-- `operator==`: `a.size() == b.size() && equal(a.begin(), a.end(), b.begin())` (short-circuit) -/
+def eq {α : Type} [BEq α] (a b : Grid α) : Except Fault Bool :=
+  if a.size == b.size then equalPrefix a.cells b.cells else .ok false
+
+/-- `operator!=` = `!(a == b)` -/
+def ne {α : Type} [BEq α] (a b : Grid α) : Except Fault Bool := (!·) <$> a.eq b
+
+/-- `operator<`: `a.size() != b.size() ? a.size() < b.size() : lexicographical_compare(cells)`;
+    `dim < dim` is `lexicographical_compare` over the components, `x` first -/
+def lt (a b : Grid Int) : Bool :=
+  if a.size != b.size then lexLess a.size b.size else lexLess a.cells b.cells
+
+/-- `operator>` = `b < a`, `operator<=` = `!(a > b)`, `operator>=` = `!(a < b)` -/
+def gt (a b : Grid Int) : Bool := b.lt a
+def le (a b : Grid Int) : Bool := !(a.gt b)
+def ge (a b : Grid Int) : Bool := !(a.lt b)
+
+end Grid
+
+namespace Grid
+
+/-- `detail::print_recurse<Level>(stream, grid, pos)` (`output.hpp`): `Level = 0` prints the cell at `pos`; otherwise
+    `index = Level - 1`, `(`, then for `i = 0 … size[index] - 1`: `pos[index] = i`, the print of `Level - 1`, and a `,`
+    unless `i` is the last one, then `)`.  The index is a compile-time constant below the static size. -/
+def printRec {α : Type} (g : Grid α) (sh : α → String) : Nat → Pos → Except Fault String
+  | 0, pos => sh <$> g.getUnsafe pos
+  | level + 1, pos =>
+    match g.size[level]? with
+    | none => .error .oob
+    | some sz => do
+      let parts ← (List.range sz.toNat).mapM fun (i : Nat) => printRec g sh level (pos.set level (i : Int))
+      pure ("(" ++ ",".intercalate parts ++ ")")
+
+/-- `operator<<(stream, grid)`: `print_recurse<N>(stream, grid, null position)` -/
+def output {α : Type} (g : Grid α) (sh : α → String) : Except Fault String :=
+  g.printRec sh g.size.length (zeros g.size)
+
+end Grid
+
+/-! ### interpolation (`interpolate.hpp`, `detail/interpolate.hpp`) -/
+
+/-- `math::vector::bit_strings<T, N>()`: the `2^N` vectors of zeros and ones, coordinate 0 running fastest -/
+def bitStrings : Nat → List Pos
+  | 0 => [[]]
+  | n + 1 => (bitStrings n).map (· ++ [0]) ++ (bitStrings n).map (· ++ [1])
+
+namespace Grid
+
+/-- `detail::interpolate<N>(grid, indices, value_index, pos, interpolator)`: for `N ≠ 1`
+    `interpolator(pos[N-1], interpolate<N-1>(…, value_index), interpolate<N-1>(…, value_index + (1 << (N-1))))`;
+    the base `N = 1` is `interpolator(pos.x, grid[indices[vi]], grid[indices[vi + 1]])`, written here as level 1 over the
+    level 0 "cell at `indices[vi]`" (`1 << 0 = 1`).  `indices.get_unsafe` outside the array: `Fault.oob`. -/
+def interpRec {α φ : Type} (g : Grid α) (idx : List Pos) (ip : φ → α → α → α) (fr : List φ) :
+    Nat → Nat → Except Fault α
+  | 0, vi =>
+    match idx[vi]? with
+    | some p => g.getUnsafe p
+    | none => .error .oob
+  | n + 1, vi =>
+    match fr[n]? with
+    | none => .error .oob
+    | some f => do
+      let a ← interpRec g idx ip fr n vi
+      let b ← interpRec g idx ip fr n (vi + 2 ^ n)
+      pure (ip f a b)
+
+/-- `grid::interpolate(grid, floating_point_position, interpolator)` with the position given as its integral part
+    `fl` (`floored`: `float_to_int` of every component, the position is not negative) and its fractional parts `fr`
+    (`mod(position, 1)`): the corner array is `bit_strings + floored`. -/
+def interpolate {α φ : Type} (g : Grid α) (fl : Pos) (fr : List φ) (ip : φ → α → α → α) : Except Fault α :=
+  g.interpRec ((bitStrings g.size.length).map fun b => List.zipWith (· + ·) b fl) ip fr g.size.length 0
 
 end Grid
 
